@@ -113,6 +113,10 @@ var allWSettings = []WSetting{
 	{Kind: "zlib", Level: -2, Window: 32768},
 	{Kind: "zlib", Level: 0, Window: 32768},
 	{Kind: "zlib", Level: 1, Window: 32768, Dict: &DataSpec{Class: "text", Seed: 7, Len: 300}},
+	// dictionaries longer than the window: only their last 32 KiB can be referred to
+	{Kind: "flate", Level: -1, Window: 32768, Dict: &DataSpec{Class: "text", Seed: 8, Len: 70000}},
+	{Kind: "zlib", Level: 6, Window: 32768, Dict: &DataSpec{Class: "text", Seed: 9, Len: 40000}},
+	{Kind: "zlib", Level: 2, Window: 32768, Dict: &DataSpec{Class: "text", Seed: 10, Len: 32769}},
 }
 
 func settingTag(s WSetting) string {
@@ -254,6 +258,10 @@ func (c *Ctx) writerRun(name string, cases []*WCase, withStd bool) (int, error) 
 	for ci, cs := range cases {
 		cs.Family = "writer"
 		cs.Set.Impl = "fastgo"
+		if cs.Via == "" && cs.Bulk == 0 && cs.Soak == 0 {
+			// how the data reaches the Writer rotates: Write, io.Copy (a ReadFrom method would run), io.WriteString
+			cs.Via = []string{"", "", "copy", "", "string", ""}[ci%6]
+		}
 		if cs.FailAt == 0 && ci%2 == 1 {
 			// every second fault-free case resets onto the SAME destination object (the next member
 			// or stream is appended to the same file) instead of a new one
@@ -439,6 +447,30 @@ func checkC16(c *Ctx) (int, error) {
 		c.ev.nontrivial(histString(cs.Ops) + "|" + cs.Tag + fmt.Sprint(i/3%5))
 	}
 	c.ev.Extra["unencodable_header_cases"] = nBad
+	// gzip Writers that are zero values made usable by Reset (pooled or embedded Writers), not constructor results
+	for i, b := range behs {
+		if i%5 != 2 {
+			continue
+		}
+		h, err := parseHist(b)
+		if err != nil {
+			return 0, err
+		}
+		set := WSetting{Kind: "gzip", Level: 0, Window: 32768}
+		cs := &WCase{ID: fmt.Sprintf("C16-zerovalue-%d", i), Set: set, Tag: settingTag(set) + "|zero-value", ZeroValue: true}
+		total := 0
+		for _, o := range h {
+			op := Op{Op: o.Op}
+			if o.Op == "W" {
+				op.N = []int{0, 9, 70000}[o.N]
+				total += op.N
+			}
+			cs.Ops = append(cs.Ops, op)
+		}
+		cs.Data = DataSpec{Class: "text", Seed: int64(i), Len: total}
+		cases = append(cases, cs)
+		c.ev.nontrivial(histString(cs.Ops) + "|" + cs.Tag)
+	}
 	// Close at the output-piece boundaries, in bulk (see execBulk)
 	cases = append(cases, bulkCases(c, rng, "C16")...)
 	c.ev.Rule = fmt.Sprintf("every history of exactly %d calls over {Write(0|small|large), Flush, Close, Reset} printed by TLC from WriterModel (prefixes are validated event by event), each on %d settings of %d; non-trivial = contains a Close and at least one other call; distinct by (history, setting)", maxLen, perHist, nset)
